@@ -683,5 +683,5 @@ impl<'a> Gen<'a> {
 }
 
 pub fn random_style(r: &mut Rng) -> Style {
-    Style { abbreviate: r.chance(1, 3), lowercase_keywords: r.chance(1, 4), newlines: r.chance(1, 3), prefixed: r.chance(1, 4), min_parens: r.coin() }
+    Style { abbreviate: r.chance(1, 3), lowercase_keywords: r.chance(1, 4), newlines: r.chance(1, 3), prefixed: r.chance(1, 4), min_parens: r.coin(), dollar: r.chance(1, 5) }
 }
